@@ -138,7 +138,7 @@ macro_rules! deriv_struct {
     ($m:expr, $r:expr, $t:ty) => {{
         let m: &mut Mon = $m;
         let r: &mut Rng = $r;
-        let n = match r.below(8) { 0 => 1, 1..=5 => r.usize(2, 8), _ => r.usize(9, 60) };
+        let n = match r.below(16) { 0 | 1 => 1, 2..=11 => r.usize(2, 8), 15 => r.usize(300, 3000), _ => r.usize(9, 60) };
         let (ends, _c) = gen_ends_any(r, n);
         let coeffs: Vec<Vec<f64>> = (0..ends.len()).map(|_| (0..<$t as Nums>::LEN).map(|_| r.mixed(4.0)).collect()).collect();
         let pw: Piecewise<$t> = pw_from(&ends, &coeffs);
